@@ -237,6 +237,8 @@ def build(rng, family):
         main.tags.add('cells.unordered')
     if rng.random() < 0.3:
         M.shuffle_options(main, rng)
+    if rng.random() < 0.2:
+        M.add_unrelated_cards(main, rng)
     main.trs.sort(key=lambda t: t.id)
     main.mats.sort(key=lambda m: m.id)
     main.hints = hints
